@@ -49,7 +49,8 @@ SLICE_OPS = ('put_slice_one', 'insert_remove', 'view_setslice')
 
 
 def sdump(n):
-    return ast.dump(n)
+    import re
+    return re.sub(r', simple=\d', '', ast.dump(n))   # AnnAssign.simple is derived from the target's spelling (parentheses): judged by the in-sync oracle, not by the grouping comparison
 
 
 def paths(node, pre=()):
